@@ -2,7 +2,7 @@
 import os
 
 from . import core
-from .rules import stdio, cert, mark, exact, optstore, inval, idx, atomic, own, tokens, idxclass, copy, pair, structfree, buf, div, counter, sentinel, appendinit, verdict, basismap, zerotol, escape, lenclass, djsym, ndet, useb4check, norms, opencheck, shell, esolver, errlost, rescan, certdep, neverset, fmt, defaults, scratch, fullscan, slotleak, floatidx, sensemap, trunc, vtypezero
+from .rules import stdio, cert, mark, exact, optstore, inval, idx, atomic, own, tokens, idxclass, copy, pair, structfree, buf, div, counter, sentinel, appendinit, verdict, basismap, zerotol, escape, lenclass, djsym, ndet, useb4check, norms, opencheck, shell, esolver, errlost, rescan, certdep, neverset, fmt, defaults, scratch, fullscan, slotleak, floatidx, sensemap, trunc, vtypezero, allockind
 from .effects import Effects
 
 FIX = os.path.join(os.path.dirname(os.path.abspath(__file__)), "fixtures")
@@ -435,6 +435,7 @@ PROPS = {
                   lambda prog, tier: div.run(prog), lambda prog, tier: counter.run(prog),
                   lambda prog, tier: errlost.run(prog, scope_funcs=set(prog.reachable([prog.require_fn(r).key for r in
                                                                                      ("mpq_QSread_prob", "mpq_QSget_prob", "mpq_QSread_basis", "mpq_QSread_and_load_basis")])), floor=60),
+                  lambda prog, tier: allockind.run(prog),
                   lambda prog, tier: fmt.run(prog, scope=lambda f, _r=set(prog.reachable([prog.require_fn(r).key for r in
                                                                                           ("mpq_QSread_prob", "mpq_QSget_prob", "mpq_QSread_basis", "mpq_QSread_and_load_basis")])): f.key in _r, floor=200)],
         "technique": "census and classification of buffer-writing calls in the reader call-graph closures (destination array sizes from the "
@@ -521,6 +522,7 @@ PROPS = {
                   lambda prog, tier: neverset.run(prog),
                   lambda prog, tier: fmt.run(prog),
                   lambda prog, tier: floatidx.run(prog),
+                  lambda prog, tier: allockind.run(prog),
                   lambda prog, tier: appendinit.run(prog),
                   lambda prog, tier: counter.run(prog),
                   lambda prog, tier: useb4check.run(prog),
@@ -648,7 +650,9 @@ _ADD = {
                            "(R-EXACT, machine word) literals are not assembled in a machine word.",
             "level_text": " Since session 3 three clauses of the scanner / default-bound semantics are decided structurally (state reset at '/', "
                           "explicit-versus-default flags, no machine-word accumulation)."},
-    "C11": {"technique": "; census of printf-like calls (set computed from the declarations) with literal / forwarded-format discharge",
+    "C11": {"level_text": " (R-ALLOCKIND) arrays of exact numbers are created by the number-array allocator, never by a raw realloc (an MPS "
+                          "file with an SOS section crashed the rational reader on the pinned tree).",
+            "technique": "; census of printf-like calls (set computed from the declarations) with literal / forwarded-format discharge",
             "explanation": " (R-FMT) no text of the input (a name, a line) is used as a format string on a reader path; (R-ERRLOST) the error code of "
                            "a failing callee is examined before it is overwritten."},
     "C12": {"explanation": " (R-VTYPEZERO) wherever the simplex chooses a non-basic status from the variable type (initial basis, singular-basis "
